@@ -28,10 +28,9 @@ import (
 	"errors"
 	"fmt"
 	"net"
-	"os"
-	"path/filepath"
 	"sort"
 	"strings"
+	"sync"
 	"testing"
 	"testing/synctest"
 	"time"
@@ -221,8 +220,10 @@ func (r *vfQrRun) modelSock(port int) int {
 func (r *vfQrRun) start() error {
 	r.unit = time.Duration(r.conf.UnitS) * time.Second
 	if r.conf.SetVars {
-		garbageCollectInterval = time.Duration(r.conf.GcEvery) * r.unit
-		maxUnusedDuration = time.Duration(r.conf.MaxUnused) * r.unit
+		// (walks run side by side: all instances with set_vars use the same values, written only when they differ)
+		if gi, mu := time.Duration(r.conf.GcEvery)*r.unit, time.Duration(r.conf.MaxUnused)*r.unit; garbageCollectInterval != gi || maxUnusedDuration != mu {
+			garbageCollectInterval, maxUnusedDuration = gi, mu
+		}
 	} else {
 		garbageCollectInterval, maxUnusedDuration = vfQrGcDefault, vfQrUnusedDefault
 		if garbageCollectInterval != time.Duration(r.conf.GcEvery)*r.unit || maxUnusedDuration != time.Duration(r.conf.MaxUnused)*r.unit {
@@ -1163,100 +1164,87 @@ func (r *vfQrRun) repairable(vs []vfQrViolation) bool {
 	return true
 }
 
-func TestVerifC04qrPool(t *testing.T) {
-	res := vfh.NewResult()
-	res.Rule = "distinct = (instance, source state, op) transitions executed on the real ConnManager"
-	defer func() {
-		garbageCollectInterval, maxUnusedDuration = vfQrGcDefault, vfQrUnusedDefault
-		if err := res.Write(); err != nil {
-			t.Fatal(err)
-		}
-	}()
-	os.Setenv("QUIC_GO_DISABLE_RECEIVE_BUFFER_WARNING", "true")
-	cert := vfQrCert(t)
-	files, _ := filepath.Glob(filepath.Join(vfh.In(), "pool-*.jsonl"))
-	sort.Strings(files)
-	if len(files) == 0 {
-		t.Fatal("no behaviour files")
+// vfQrBudget limits the confirmation runs per kind of deviation (shared by the workers)
+type vfQrBudget struct {
+	mu sync.Mutex
+	m  map[string]int
+}
+
+func (b *vfQrBudget) take(key string, max int) bool {
+	b.mu.Lock()
+	defer b.mu.Unlock()
+	if b.m[key] >= max {
+		return false
 	}
-	confirmBudget := map[string]int{}
-	for _, f := range files {
-		hdr, walks, err := vfh.LoadWalks(f)
-		if err != nil {
-			t.Fatal(err)
+	b.m[key]++
+	return true
+}
+
+// vfQrPoolWalk replays one walk of a pool instance (with retries for non-deterministic choices and confirmation runs).
+func vfQrPoolWalk(t *testing.T, res *vfh.Result, inst string, conf vfQrConf, cert tls.Certificate, w vfh.Walk, budget *vfQrBudget) {
+	var out vfQrOutcome
+	for attempt := 0; attempt < 400; attempt++ {
+		out = vfQrRunWalk(t, conf, cert, w, len(w.Steps), -1)
+		if !out.retry {
+			break
 		}
-		var conf vfQrConf
-		b, _ := json.Marshal(hdr["conf"])
-		if err := json.Unmarshal(b, &conf); err != nil {
-			t.Fatal(err)
+		res.Inc("pool_nondeterministic_choice_retries", 1)
+	}
+	if out.crashed != "" {
+		t.Errorf("%s walk %d: %s", inst, w.Walk, out.crashed)
+		return
+	}
+	if out.retry {
+		res.Inc("pool_walks_not_matched_after_retries", 1)
+		return
+	}
+	res.Count(1, out.executed)
+	res.Inc("pool_steps", out.executed)
+	prev := w.Init
+	for i := 0; i < out.executed; i++ {
+		res.Case("pool:" + inst + "|" + string(prev) + "|" + vfh.Canon(w.Steps[i].Op))
+		prev = w.Steps[i].State
+	}
+	if out.executed < len(w.Steps) {
+		res.Inc("pool_steps_not_executed_after_violation", len(w.Steps)-out.executed)
+	}
+	prefix := func(n int) []vfh.Op {
+		var p []vfh.Op
+		for i := 0; i < n && i < len(w.Steps); i++ {
+			p = append(p, w.Steps[i].Op)
 		}
-		inst := fmt.Sprint(hdr["name"])
-		for _, w := range walks {
-			var out vfQrOutcome
-			for attempt := 0; attempt < 400; attempt++ {
-				out = vfQrRunWalk(t, conf, cert, w, len(w.Steps), -1)
-				if !out.retry {
-					break
-				}
-				res.Inc("nondeterministic_choice_retries", 1)
-			}
-			if out.crashed != "" {
-				t.Fatalf("%s walk %d: %s", inst, w.Walk, out.crashed)
-			}
-			if out.retry {
-				res.Inc("walks_not_matched_after_retries", 1)
-				continue
-			}
-			res.Count(1, out.executed)
-			prev := w.Init
-			for i := 0; i < out.executed; i++ {
-				res.Case(inst + "|" + string(prev) + "|" + vfh.Canon(w.Steps[i].Op))
-				prev = w.Steps[i].State
-			}
-			if out.executed < len(w.Steps) {
-				res.Inc("steps_not_executed_after_violation", len(w.Steps)-out.executed)
-			}
-			prefix := func(n int) []vfh.Op {
-				var p []vfh.Op
-				for i := 0; i < n && i < len(w.Steps); i++ {
-					p = append(p, w.Steps[i].Op)
-				}
-				return p
-			}
-			for _, v := range out.viol {
-				res.AddMismatch(vfh.Mismatch{Class: v.class, What: v.what, Walk: w.Walk, Step: out.step, Expected: v.exp, Got: v.got,
-					Prefix: prefix(out.step + 1), Cfg: map[string]any{"instance": inst, "conf": conf}})
-			}
-			for _, v := range out.l2 {
-				res.AddMismatch(vfh.Mismatch{Class: v.class, What: v.what, Walk: w.Walk, Step: -1, Expected: v.exp, Got: v.got,
-					Cfg: map[string]any{"instance": inst}})
-			}
-			// confirmation of count deviations: same prefix, nothing repaired at the deviating step, then time passes
-			for j, ds := range out.devSteps {
-				key := inst[:1] + ":" + out.devKinds[j] + ":" + w.Steps[ds].Op.S("kind") + w.Steps[ds].Op.S("err")
-				if confirmBudget[key] >= 3 {
-					res.Inc("deviations_not_confirmed_again", 1)
-					continue
-				}
-				confirmBudget[key]++
-				var c vfQrOutcome
-				for attempt := 0; attempt < 400; attempt++ {
-					c = vfQrRunWalk(t, conf, cert, w, ds+1, ds)
-					if !c.retry {
-						break
-					}
-				}
-				if c.crashed != "" || c.retry || !c.confirmed {
-					res.Inc("confirmations_failed_to_run", 1)
-					continue
-				}
-				res.Inc("confirmation_runs", 1)
-				for _, v := range c.viol {
-					res.AddMismatch(vfh.Mismatch{Class: v.class, What: "[confirmation run: prefix, then time passes] " + v.what, Walk: w.Walk, Step: ds,
-						Expected: v.exp, Got: v.got, Prefix: prefix(ds + 1), Cfg: map[string]any{"instance": inst, "conf": conf, "then": "ticks"}})
-				}
+		return p
+	}
+	for _, v := range out.viol {
+		res.AddMismatch(vfh.Mismatch{Class: v.class, What: v.what, Walk: w.Walk, Step: out.step, Expected: v.exp, Got: v.got,
+			Prefix: prefix(out.step + 1), Cfg: map[string]any{"part": "pool", "instance": inst, "conf": conf}})
+	}
+	for _, v := range out.l2 {
+		res.AddMismatch(vfh.Mismatch{Class: v.class, What: v.what, Walk: w.Walk, Step: -1, Expected: v.exp, Got: v.got,
+			Cfg: map[string]any{"part": "pool", "instance": inst}})
+	}
+	// confirmation of count deviations: same prefix, nothing repaired at the deviating step, then time passes
+	for j, ds := range out.devSteps {
+		key := inst + ":" + out.devKinds[j] + ":" + w.Steps[ds].Op.S("kind") + w.Steps[ds].Op.S("err")
+		if !budget.take(key, 2) {
+			res.Inc("pool_deviations_not_confirmed_again", 1)
+			continue
+		}
+		var c vfQrOutcome
+		for attempt := 0; attempt < 400; attempt++ {
+			c = vfQrRunWalk(t, conf, cert, w, ds+1, ds)
+			if !c.retry {
+				break
 			}
 		}
-		res.Sample(map[string]any{"instance": inst, "walks": len(walks)})
+		if c.crashed != "" || c.retry || !c.confirmed {
+			res.Inc("pool_confirmations_failed_to_run", 1)
+			continue
+		}
+		res.Inc("pool_confirmation_runs", 1)
+		for _, v := range c.viol {
+			res.AddMismatch(vfh.Mismatch{Class: v.class, What: "[confirmation run: prefix, then time passes] " + v.what, Walk: w.Walk, Step: ds,
+				Expected: v.exp, Got: v.got, Prefix: prefix(ds + 1), Cfg: map[string]any{"part": "pool", "instance": inst, "conf": conf, "then": "ticks"}})
+		}
 	}
 }
